@@ -28,8 +28,8 @@ GenNext ==
      \/ \E b \in RandomSubset(1, 2..n) : Play(b, "*")
      \/ (pool # {} /\ Mine(TopoOrder(pool)))
      \/ \E b \in RandomSubset(1, {0}) : Mine(TopoOrder(pool))
-     \/ \E d \in 1..n : Walk(d, FALSE, {"*"})
-     \/ \E d \in RandomSubset(1, 1..n) : Walk(d, TRUE, {"*"})      \* pruning walk
+     \/ \E d \in 1..n : Walk(d, FALSE, {"*"}, <<>>)
+     \/ \E d \in RandomSubset(1, 1..n) : Walk(d, TRUE, {"*"}, <<>>)      \* pruning walk
      \/ Restart
 GenSpec == Init /\ [][GenNext]_vars
 =============================================================================
